@@ -33,6 +33,15 @@ pub struct StLine {
     pub rw: Vec<i64>,
     pub tq: Vec<i64>,
     pub pnum: Vec<i64>,
+    /// row replication factors that land on tabulated degrees of freedom (VPStats!ReplLaw)
+    #[serde(default)]
+    pub repl: Vec<ReplJ>,
+}
+#[derive(Deserialize, Debug, Clone)]
+pub struct ReplJ {
+    pub k: usize,
+    pub nu: i64,
+    pub tq: Vec<i64>,
 }
 #[derive(Deserialize, Debug, Clone)]
 pub struct SuLine {
@@ -116,33 +125,53 @@ fn judge_stationary<T: Sc>(idx: usize, l: &StLine, rep: &mut Report) {
     // the instance itself and its scaled-residual twins (VPStats!ScaleLaw): r0 * 2^-k
     let ks: &[i32] = if T::NAME == "f64" { &[0, 20, 30] } else { &[0, 8] };
     for &k in ks {
-        judge_stationary_scaled::<T>(idx, l, k, 0, rep);
+        judge_stationary_scaled::<T>(idx, l, k, 0, 0, None, rep);
     }
     // weight-scaled twins (VPStats!WeightScaleLaw): w * 2^-k; chi2 scales, Cov / band / correlation do not
     let wk = if T::NAME == "f64" { 14 } else { 5 };
-    judge_stationary_scaled::<T>(idx, l, 0, wk, rep);
+    judge_stationary_scaled::<T>(idx, l, 0, wk, 0, None, rep);
+    // coefficient-scaled twins (VPStats!CoeffScaleLaw): c * 2^k; the nonlinear columns of H grow by 2^k,
+    // H^T H is badly scaled (not ill conditioned): Cov_ij shrinks by S_i S_j, everything else stays
+    let ck = if T::NAME == "f64" { 30 } else { 12 };
+    judge_stationary_scaled::<T>(idx, l, 0, 0, ck, None, rep);
+    // row-replicated twins (VPStats!ReplLaw): degrees of freedom 8 .. 1000 with exactly known statistics
+    for r in l.repl.iter() {
+        if idx % 4 == 0 || r.k <= 8 {
+            judge_stationary_scaled::<T>(idx, l, 0, 0, 0, Some(r), rep);
+        }
+    }
 }
 
-fn judge_stationary_scaled<T: Sc>(idx: usize, l: &StLine, kexp: i32, wexp: i32, rep: &mut Report) {
+fn judge_stationary_scaled<T: Sc>(idx: usize, l: &StLine, kexp: i32, wexp: i32, cexp: i32, repl: Option<&ReplJ>, rep: &mut Report) {
     let t = (2.0f64).powi(-kexp);
     let tw = (2.0f64).powi(-wexp);
-    let n = l.x.len();
+    let tc = (2.0f64).powi(cexp);
+    let n0 = l.x.len();
+    let kk = repl.map(|r| r.k).unwrap_or(1);
+    let n = kk * n0;
     let (m, p) = (l.fam.m, l.fam.p);
-    let table = table_of::<T>(&l.fam, &l.a, &l.phi, &l.dphi, n);
-    let xs: Vec<T> = l.x.iter().map(|&v| T::of64(v as f64)).collect();
-    // y = Phi c + t r0  (exactly representable: small integers plus r0 * 2^-k)
-    let y = DMatrix::from_fn(n, 1, |i, _| T::of64((l.y[i] - l.r0[i]) as f64 + t * l.r0[i] as f64));
-    if (0..n).any(|i| y[(i, 0)].to64() != (l.y[i] - l.r0[i]) as f64 + t * l.r0[i] as f64) {
+    let phi_rep: Vec<Vec<i64>> = (0..n).map(|i| l.phi[i % n0].clone()).collect();
+    let dphi_rep: Vec<Vec<Vec<i64>>> = l.dphi.iter().map(|d| (0..n).map(|i| d[i % n0].clone()).collect()).collect();
+    let table = table_of::<T>(&l.fam, &l.a, &phi_rep, &dphi_rep, n);
+    let xs: Vec<T> = (0..n).map(|i| T::of64(l.x[i % n0] as f64)).collect();
+    // y = Phi (tc c) + t r0  (exactly representable: small integers times 2^k plus r0 * 2^-k)
+    let yv = |i: usize| tc * (l.y[i % n0] - l.r0[i % n0]) as f64 + t * l.r0[i % n0] as f64;
+    let y = DMatrix::from_fn(n, 1, |i, _| T::of64(yv(i)));
+    if (0..n).any(|i| y[(i, 0)].to64() != yv(i)) {
         return; // not exact in this scalar type
     }
     let w: Option<Vec<T>> = if wexp != 0 {
-        Some((0..n).map(|i| T::of64(tw * if l.w.is_empty() { 1.0 } else { l.w[i] as f64 })).collect())
+        Some((0..n).map(|i| T::of64(tw * if l.w.is_empty() { 1.0 } else { l.w[i % n0] as f64 })).collect())
     } else if l.w.is_empty() {
         None
     } else {
-        Some(l.w.iter().map(|&v| T::of64(v as f64)).collect())
+        Some((0..n).map(|i| T::of64(l.w[i % n0] as f64)).collect())
     };
-    let tol = if kexp == 0 && wexp == 0 { T::tol() } else { T::tol() * 100.0 };
+    let plain = kexp == 0 && wexp == 0 && cexp == 0 && kk == 1;
+    let tol = if plain { T::tol() } else { T::tol() * 100.0 };
+    // S = diag(1, .., 1, tc, .., tc): scaling of the columns of H under the coefficient scaling
+    let sc_of = |i: usize| if i < m { 1.0 } else { tc };
+    let tq: &Vec<i64> = repl.map(|r| &r.tq).unwrap_or(&l.tq);
     let band_tol = if T::NAME == "f64" { 2e-4 } else { 5e-3 };
     let mut kinds = vec![MKind::Table, MKind::TableBuilt];
     if poly_is_family(&l.fam.name) {
@@ -150,16 +179,20 @@ fn judge_stationary_scaled<T: Sc>(idx: usize, l: &StLine, kexp: i32, wexp: i32, 
         kinds.push(MKind::PolyBuilt);
     }
     let ps: Vec<f64> = l.pnum.iter().map(|&v| v as f64 / 1000.0).collect();
-    let nu = l.nu as f64;
+    let nu = repl.map(|r| r.nu).unwrap_or(l.nu) as f64;
     let deth = l.deth as f64;
     // |rw|^2 scales with both factors; det and adj scale with the weights but their ratio
     // rr*adj/(nu*det) does not (handled by using rr0 for covariance-like quantities)
+    // (under row replication |rw|^2 and H^T H both grow by the factor K, which cancels in Cov)
     let rr0 = l.rr as f64 * t * t;
-    let rr = rr0 * tw * tw;
+    let rr = rr0 * tw * tw * kk as f64;
     for (ki, &kind) in kinds.iter().enumerate() {
         let par = (idx + ki) % 2 == 1;
-        let flav = format!("line={} fam={}({},{},{}) {} {:?} par={} rscale=2^-{} wscale=2^-{}", idx, l.fam.name, m, p, l.fam.seed, T::NAME, kind, par, kexp, wexp);
+        let flav = format!("line={} fam={}({},{},{}) {} {:?} par={} rscale=2^-{} wscale=2^-{} cscale=2^{} rows x{} nu={}", idx, l.fam.name, m, p, l.fam.seed, T::NAME, kind, par, kexp, wexp, cexp, kk, nu);
         let det = |what: &str, dv: f64| json!({"flavour": flav, "what": what, "dev": dv, "a": l.a, "c": l.c, "r0": l.r0, "w": l.w});
+        if !plain && !(kexp != 0 || wexp != 0) && ki >= 2 && idx % 2 == 1 {
+            continue; // the polynomial flavours of the new twins on every other instance only
+        }
         let prob = match make::<T>(kind, &l.fam, &table, &xs, &l.a, &y, w.as_deref(), par) {
             Ok(p) => p,
             Err(e) => {
@@ -178,13 +211,20 @@ fn judge_stationary_scaled<T: Sc>(idx: usize, l: &StLine, kexp: i32, wexp: i32, 
         };
         // the start is exactly stationary: the fit must stop there after one evaluation
         if !(out.fit.nfev == 1 && out.fit.termination == "Orthogonal") {
-            rep.count(if kexp == 0 && wexp == 0 { "not_stationary_numerically" } else { "scaled_twin_not_stationary_numerically" }, 1);
+            rep.count(if plain { "not_stationary_numerically" } else { "scaled_twin_not_stationary_numerically" }, 1);
             if rep.notes.len() < 3 {
                 rep.notes.push(format!("instance left the lattice: {} term={} nfev={}", flav, out.fit.termination, out.fit.nfev));
             }
             continue;
         }
         rep.count("stationary_fits", 1);
+        if cexp != 0 {
+            rep.count("coefficient_scaled_twin_fits", 1);
+        }
+        if kk > 1 {
+            rep.count("row_replicated_twin_fits", 1);
+            rep.count(&format!("replicated_nu_{}", nu as i64), 1);
+        }
         // C12: N > M + P here, the fit succeeded, the model does not err  =>  Ok
         let st = match out.stats {
             None => {
@@ -199,9 +239,9 @@ fn judge_stationary_scaled<T: Sc>(idx: usize, l: &StLine, kexp: i32, wexp: i32, 
         let same = st.wres.len() == fr.len() && st.wres.iter().zip(fr.iter()).all(|(a, b)| devf(a.to64(), b.to64()) <= tol);
         rep.check("C12", same, 0.0, || det("weighted_residuals differ from the final residuals of the fit", 0.0));
         let mut worst = 0.0f64;
-        if st.wres.len() == l.rw.len() {
+        if st.wres.len() == n {
             for i in 0..n {
-                let e = l.rw[i] as f64 * t * tw;
+                let e = l.rw[i % n0] as f64 * t * tw;
                 worst = worst.max((st.wres[i].to64() - e).abs() / e.abs().max(t * tw));
             }
         } else {
@@ -225,9 +265,11 @@ fn judge_stationary_scaled<T: Sc>(idx: usize, l: &StLine, kexp: i32, wexp: i32, 
             let mut asym = 0.0f64;
             for i in 0..k {
                 for j in 0..k {
+                    // compared after undoing the column scaling: S Cov' S = Cov
                     let e = rr0 * l.adj[i][j] as f64 / (nu * deth);
-                    worst = worst.max((st.cov[(i, j)].to64() - e).abs() / scale);
-                    asym = asym.max((st.cov[(i, j)].to64() - st.cov[(j, i)].to64()).abs() / scale);
+                    let un = sc_of(i) * sc_of(j);
+                    worst = worst.max((st.cov[(i, j)].to64() * un - e).abs() / scale);
+                    asym = asym.max((st.cov[(i, j)].to64() - st.cov[(j, i)].to64()).abs() * un / scale);
                 }
             }
             rep.check("C13", worst <= tol, worst, || det("covariance differs from sigma^2 (H^T H)^-1 in (c, alpha) order", worst));
@@ -267,12 +309,12 @@ fn judge_stationary_scaled<T: Sc>(idx: usize, l: &StLine, kexp: i32, wexp: i32, 
         // C14: band radius
         let mut prev: Option<Vec<f64>> = None;
         for (pi, (pv, band)) in st.bands.iter().enumerate() {
-            let t = l.tq[pi] as f64 / 1e6;
+            let t = tq[pi] as f64 / 1e6;
             let mut worst = 0.0f64;
             let mut ok = band.len() == n;
             if ok {
                 for i in 0..n {
-                    let e = t * (rr0 * l.quad[i] as f64 / (nu * deth)).sqrt();
+                    let e = t * (rr0 * l.quad[i % n0] as f64 / (nu * deth)).sqrt();
                     let g = band[i].to64();
                     if !g.is_finite() || g < 0.0 {
                         ok = false;
